@@ -322,9 +322,15 @@ def run_nested(ns, c):
     viol, events = [], []
     x = T((rng.standard_normal((64, 4)) + 3.0).astype(np.float32))
     n = 0
-    for step in range(int(rng.integers(3, 9))):
-        target = [model, inner, drop, bn][int(rng.integers(4))]
-        to_train = bool(rng.integers(2))
+    # the first steps are scripted (a child left in the other mode than its parent, then the parent is switched to the mode it already has),
+    # the rest are random
+    script = [(model, False), (drop, True), (bn, True), (model, False), (model, True), (bn, False), (inner, False), (model, True)]
+    for step in range(len(script) + int(rng.integers(3, 9))):
+        if step < len(script):
+            target, to_train = script[step]
+        else:
+            target = [model, inner, drop, bn][int(rng.integers(4))]
+            to_train = bool(rng.integers(2))
         (target.train if to_train else target.eval)()
         events.append(f"{['model', 'inner', 'drop', 'bn'][[model, inner, drop, bn].index(target)]}.{'train' if to_train else 'eval'}()")
         if target is model:
